@@ -43,21 +43,21 @@ var ExcludedDirs = map[string]string{
 const MinProdPackages = 16
 
 type Prog struct {
-	Dir      string
-	Fset     *token.FileSet
-	Pkgs     []*packages.Package
-	ByRel    map[string]*packages.Package // "" (root), "impl", "channels", ...
-	SSA      *ssa.Program
-	SSAByRel map[string]*ssa.Package
-	prodT    map[*types.Package]bool
-	AllFuncs map[*ssa.Function]bool
-	Prod     []*ssa.Function // production functions with bodies, sorted by name
-	LoadS    float64
-	SSAS     float64
-	cg       *CallGraph
-	facts    map[*ssa.Function]map[*ssa.BasicBlock][]Fact
-	Overlay  map[string][]byte
-	GoBin    string
+	Dir        string
+	Fset       *token.FileSet
+	Pkgs       []*packages.Package
+	ByRel      map[string]*packages.Package // "" (root), "impl", "channels", ...
+	SSA        *ssa.Program
+	SSAByRel   map[string]*ssa.Package
+	prodT      map[*types.Package]bool
+	AllFuncs   map[*ssa.Function]bool
+	Prod       []*ssa.Function // production functions with bodies, sorted by name
+	LoadS      float64
+	SSAS       float64
+	cg         *CallGraph
+	facts      map[*ssa.Function]map[*ssa.BasicBlock][]Fact
+	Overlay    map[string][]byte
+	GoBin      string
 	constNames map[string]string
 	constPkgs  map[*types.Package]bool
 }
